@@ -237,7 +237,31 @@ def abstract_events(events):
     return out
 
 
-def abstract_report(res, cli=False):
+def parse_listed(world, names):
+    """Map the lines of a 'Tests with failures/errors' list back to what they
+    name: test ids, failed layer hooks, subprocess errors, or unparseable."""
+    by_name = {}
+    if world is not None:
+        for t in world['tests']:
+            by_name[test_name(world, t)] = t
+    ids, layers, other = [], [], []
+    for n in names:
+        m = re.match(r'^Layer: (.+)\.(setUp|tearDown)$', n)
+        if m:
+            layers.append([layer_abstract_name(m.group(1)), m.group(2)])
+            continue
+        if n in by_name:
+            ids.append(by_name[n])
+            continue
+        m = re.match(r'^(.*\)) [\[(].*[\])]$', n)
+        if m and m.group(1) in by_name:
+            ids.append(by_name[m.group(1)])
+            continue
+        other.append(n)
+    return ids, layers, other
+
+
+def abstract_report(res, cli=False, world=None):
     rep = res['report']
     if cli:
         crashed = ''
@@ -251,6 +275,8 @@ def abstract_report(res, cli=False):
     else:
         crashed = res.get('crashed', '')
         failed = bool(res.get('failed'))
+    fids, flay, foth = parse_listed(world, rep['failures'])
+    eids, elay, eoth = parse_listed(world, rep['errors'])
     return {
         'crashed': crashed, 'failed': failed,
         'hasSummary': bool(rep['summaries']) or rep['total'] is not None,
@@ -261,4 +287,8 @@ def abstract_report(res, cli=False):
         'failures': rep['failures'], 'errors': rep['errors'],
         'hasFailList': rep['has_fail_list'], 'hasErrList': rep['has_err_list'],
         'layers': [layer_abstract_name(x) for x in rep['layers']],
+        'failIds': fids, 'errIds': eids,
+        'failLayers': flay, 'errLayers': elay,
+        'failOther': len(foth), 'errOther': len(eoth),
+        'subprocErrs': len([x for x in eoth if x.startswith('subprocess')]),
     }
